@@ -8,11 +8,11 @@ cp -r /repo/tempest /repo/tests /repo/pyproject.toml "$WT"/ 2>/dev/null
 OUT=/verif/seeded/$P; mkdir -p "$OUT"
 cp "$SRC/patch_$P.diff" "$OUT/patch.diff"; cp "$SRC/demo_$P.py" "$OUT/demo.py"; cp "$SRC/meta_$P.json" "$OUT/meta_agent.json"
 cd "$WT" || exit 2
-echo "== demo on the UNCHANGED copy"; /venv/bin/python "$OUT/demo.py" > "$OUT/demo_clean.log" 2>&1; RC_CLEAN=$?; echo "rc=$RC_CLEAN"
+echo "== demo on the UNCHANGED copy"; PYTHONPATH="$WT" /venv/bin/python "$OUT/demo.py" > "$OUT/demo_clean.log" 2>&1; RC_CLEAN=$?; echo "rc=$RC_CLEAN"
 patch -p1 -s < "$OUT/patch.diff" || { echo "patch does not apply"; rm -rf "$WT"; exit 3; }
-echo "== demo WITH the change"; /venv/bin/python "$OUT/demo.py" > "$OUT/demo_mut.log" 2>&1; RC_MUT=$?; echo "rc=$RC_MUT"; head -5 "$OUT/demo_mut.log"
+echo "== demo WITH the change"; PYTHONPATH="$WT" /venv/bin/python "$OUT/demo.py" > "$OUT/demo_mut.log" 2>&1; RC_MUT=$?; echo "rc=$RC_MUT"; head -5 "$OUT/demo_mut.log"
 echo "== existing suite WITH the change"
-/venv/bin/python -m pytest -q -p no:cacheprovider --timeout=900 -q --junitxml="$WT/j.xml" > "$WT/suite.log" 2>&1
+PYTHONPATH="$WT" /venv/bin/python -m pytest -q -p no:cacheprovider --timeout=900 -q --junitxml="$WT/j.xml" > "$WT/suite.log" 2>&1
 SUITE=$(python3 -c "
 import xml.etree.ElementTree as ET
 r=ET.parse('$WT/j.xml').getroot(); ts=r if r.tag=='testsuite' else r[0]
@@ -26,7 +26,7 @@ for C in $CHECKS; do
   grep -E "^VIOLATION|failing input|^C[0-9]+ tier" "$OUT/check_$C.log" | cut -c1-300
   RES="$RES $C:rc=$RC"
 done
-rm -rf "$WT"
+cd /verif; rm -rf "$WT"
 # regenerate Gen/ files from the real tree
 for C in $CHECKS; do TEMPEST_REPO=/repo PYTHONPATH=/verif /venv/bin/python -c "
 import importlib,sys
